@@ -287,10 +287,14 @@ def r11_map_ref_iter(text, exprs):
     return text, cnt
 
 
-def r9_await_erasure(text, callee_patterns):
+AWAIT_MARK = "/*@await*/"
+
+
+def r9_await_erasure(text, callee_patterns, mark=False):
     """R9: erase `.await` after calls whose callee matches one of callee_patterns
     (regexes on the text preceding `.await`, typically shim-trait method names);
-    with pattern '*' erase all `.await`."""
+    with pattern '*' erase all `.await`.  With mark=True (R9c) every erased await leaves the comment marker
+    AWAIT_MARK behind, so that cancellation-point obligations can be spliced at the await points by ordinal."""
     cnt = 0
     if "*" in callee_patterns:
         m = L.mask(text)
@@ -298,6 +302,8 @@ def r9_await_erasure(text, callee_patterns):
         last = 0
         for k in re.finditer(r"\s*\.\s*await\b", m):
             out.append(text[last:k.start()])
+            if mark:
+                out.append(AWAIT_MARK)
             last = k.end()
             cnt += 1
         out.append(text[last:])
@@ -827,6 +833,21 @@ def r7_expand_repo_macros(text, macro_file, names=("tx",)):
     return text, cnt
 
 
+def r25_eta_expand_ctor(text):
+    """R25: a tuple-variant / tuple-struct constructor path passed as a function value to `map_err` / `map`,
+    `.map_err(Enum::Variant)` -> `.map_err(|e__| Enum::Variant(e__))` (eta-expansion; Verus does not support datatype
+    constructors as function values)."""
+    m = L.mask(text)
+    out, last, cnt = [], 0, 0
+    for k in re.finditer(r"\.\s*(map_err|map)\s*\(\s*((?:[A-Za-z_]\w*::)+[A-Z]\w*)\s*\)", m):
+        out.append(text[last:k.start()])
+        out.append(".%s(|e__| %s(e__))" % (k.group(1), text[k.start(2):k.end(2)]))
+        last = k.end()
+        cnt += 1
+    out.append(text[last:])
+    return "".join(out), cnt
+
+
 def r22_entry_and_modify(text):
     """R22: the Entry-API chain, as a statement,
          RECV.entry(K).and_modify(|x| BODY).or_insert(V);   ->  { let k__ = K; match RECV.get_mut(&k__) { Some(x) => { BODY } None => { RECV.insert(k__, V); } } }
@@ -907,6 +928,7 @@ def r23_hashmap_into_iter(text, exprs):
 
 RULES = {
     "R22": r22_entry_and_modify,
+    "R25": r25_eta_expand_ctor,
     "R18b": r18b_hoist_question_mark,
     "R17b": r17b_tail_continue,
     "R20": r20_mut_self,
